@@ -5,7 +5,7 @@ use bitvec::{order::{Lsb0, Msb0}, store::BitStore, vec::BitVec};
 use parity_scale_codec::{Encode, EncodeLike, Ref};
 use psc_bridge::{modeled::OrderModel, Modeled};
 use psc_model::{
-	enc::ref_encode,
+	enc::{compact_bytes, ref_encode},
 	gen::Gen,
 	runner::{guard, CheckFn},
 	serde_json::json,
@@ -604,6 +604,80 @@ pub fn holder_history<T: Modeled + Encode + Clone + EncodeLike<T>>(g: &mut Gen, 
 	Ok(())
 }
 
+/// Sequences *of holders*: a vector, slice, deque or array whose elements are boxed / shared / borrowed /
+/// copy-on-write values encodes like the same sequence of plain values, and two equal sequences built
+/// separately (different heap addresses) encode identically.
+pub fn holder_seq_history<T: Modeled + Encode + Clone + EncodeLike<T> + Default>(g: &mut Gen, stats: &mut Stats) -> Result<(), Violation> {
+	let n = match g.below(4) {
+		0 => 0,
+		1 => 1,
+		_ => 2 + g.below(40),
+	};
+	let items: Vec<T> = (0..n).map(|_| gen_item::<T>(g)).collect();
+	let want = seq_bytes(&items);
+	let boxes: Vec<Box<T>> = items.iter().cloned().map(Box::new).collect();
+	let boxes2: Vec<Box<T>> = items.iter().cloned().map(Box::new).collect();
+	let refs: Vec<&T> = items.iter().collect();
+	let rcs: Vec<Rc<T>> = items.iter().cloned().map(Rc::new).collect();
+	let arcs: Vec<Arc<T>> = items.iter().cloned().map(Arc::new).collect();
+	let cows_b: Vec<Cow<'_, T>> = items.iter().map(Cow::Borrowed).collect();
+	let cows_o: Vec<Cow<'_, T>> = items.iter().cloned().map(Cow::Owned).collect();
+	let wrapped: Vec<Ref<'_, T, T>> = items.iter().map(Ref::from).collect();
+	let mut deque: VecDeque<Box<T>> = VecDeque::with_capacity(n + 1);
+	for _ in 0..n / 2 + 1 {
+		deque.push_back(Box::new(T::default()));
+	}
+	for _ in 0..n / 2 + 1 {
+		deque.pop_front();
+	}
+	deque.extend(items.iter().cloned().map(Box::new));
+	let mut forms: Vec<(&str, Vec<u8>)> = vec![
+		("Vec<Box<T>>", boxes.encode()),
+		("Vec<Box<T>> rebuilt", boxes2.encode()),
+		("&[Box<T>]", boxes[..].encode()),
+		("Vec<&T>", refs.encode()),
+		("&[&T]", refs[..].encode()),
+		("Vec<Rc<T>>", rcs.encode()),
+		("Vec<Arc<T>>", arcs.encode()),
+		("Vec<Cow::Borrowed>", cows_b.encode()),
+		("Vec<Cow::Owned>", cows_o.encode()),
+		("Vec<Ref<T,T>>", wrapped.encode()),
+		("wrapped VecDeque<Box<T>>", deque.encode()),
+		("Box<[Rc<T>]>", rcs.clone().into_boxed_slice().encode()),
+	];
+	if n >= 3 {
+		let arr: [&T; 3] = [&items[0], &items[1], &items[2]];
+		let arr_b: [Box<T>; 3] = [boxes[0].clone(), boxes[1].clone(), boxes[2].clone()];
+		let mut w = compact_bytes(3);
+		w.extend(arr.encode());
+		forms.push(("len ++ [&T; 3]", w));
+		let mut w = compact_bytes(3);
+		w.extend(arr_b.encode());
+		forms.push(("len ++ [Box<T>; 3]", w));
+	}
+	let want3 = if n >= 3 { seq_bytes(&items[..3]) } else { vec![] };
+	stats.eval();
+	stats.class(&format!("holder-sequences<{}>", T::ty().family()));
+	if n >= 2 {
+		stats.nontrivial(&("holder-seq", &want));
+	}
+	for (what, got) in forms {
+		let expect = if what.starts_with("len ++") { &want3 } else { &want };
+		if &got != expect {
+			return Err(Violation::new(
+				format!("C06/holder-sequence/{}", sanitize(what)),
+				format!(
+					"{what} of {n} {} values encodes to {} but the sequence of plain values encodes to {}",
+					T::ty().short_name(),
+					hex(&got),
+					hex(expect)
+				),
+			));
+		}
+	}
+	Ok(())
+}
+
 pub fn tape_checks(_ctx: &Ctx) -> Vec<(&'static str, Box<CheckFn<'_>>)> {
 	vec![
 		(
@@ -671,6 +745,19 @@ pub fn tape_checks(_ctx: &Ctx) -> Vec<(&'static str, Box<CheckFn<'_>>)> {
 				_ => holder_history::<[u8; 32]>(g, st),
 			}),
 		),
+		(
+			"holder-sequences",
+			Box::new(|g: &mut Gen, st: &mut Stats| match g.below(8) {
+				0 => holder_seq_history::<u8>(g, st),
+				1 => holder_seq_history::<u32>(g, st),
+				2 => holder_seq_history::<u64>(g, st),
+				3 => holder_seq_history::<i16>(g, st),
+				4 => holder_seq_history::<f64>(g, st),
+				5 => holder_seq_history::<String>(g, st),
+				6 => holder_seq_history::<(u8, u16)>(g, st),
+				_ => holder_seq_history::<bool>(g, st),
+			}),
+		),
 	]
 }
 
@@ -693,7 +780,7 @@ pub fn run(ctx: &Ctx) -> (Level, Report) {
 element types plus String, Option<u16>, (u8,u32), ()); Vec/String capacity histories; BTreeMap/BTreeSet insertion/removal orders and \
 permutations of the same final content; LinkedList push/split_off/append; BinaryHeap push/pop (own iteration order + multiset round trip); \
 bit sequences: sub-slices at every start offset 0..=70 for all eight store/order pairs against a freshly built vector, and owned-vector histories (push, pop, truncate, negate, split_off keeping either half, set, fill, remove, shrink_to_fit, repeat(true)) that leave stale bits in the storage words; holders: Box, Rc, Arc, \
-&, &&, &mut, Cow borrowed/owned, Ref and clone/borrow/own transitions. Oracle: encoding == reference encoding of the logical content == \
+&, &&, &mut, Cow borrowed/owned, Ref and clone/borrow/own transitions, and sequences (Vec, slice, boxed slice, wrapped deque, array) whose elements are such holders of u8, u32, u64, i16, f64, bool, String or a tuple, built twice at different addresses. Oracle: encoding == reference encoding of the logical content == \
 fresh copy's encoding == second encoding. Non-trivial = an encode with the ring wrapped / after a removal / at a non-zero bit offset / with \
 spare capacity.",
 			assumptions: vec!["reference encoder self-tested on published vectors"],
